@@ -4,7 +4,7 @@
    unquoted metacharacter gives None.  All theorems are for the sh dialect (p_fish = false); the fish
    dialect is modelled (esc_fish) but excluded from the claim. Raw (r) and file (f) placeholders are
    unquoted by documentation: they appear as OText (spliced text), never as OWords. *)
-From Fzf Require Import Prelude ShellSpec PlaceholderModel PlaceholderProofs.
+From Fzf Require Import Prelude ShellSpec PlusSpec PlaceholderModel PlaceholderProofs PlusListModel PlusListProofs.
 Open Scope Z_scope.
 
 (* QuoteEntry: ANY list of byte strings (quotes, blanks, newlines, $, `, \, globs ...), each quoted and joined by
@@ -81,6 +81,68 @@ Theorem env_export_roundtrip : forall name value, valid_identifier name = true -
 Proof. exact env_export_roundtrip_proof. Qed.
 Print Assumptions env_export_roundtrip.
 
+(* ---- the running finder: buildPlusList, then replacePlaceholder (execute*, transform*, preview, become, reload) ----
+   State of the finder as an expansion sees it: the item under the cursor and the selected items in selection order. *)
+
+(* buildPlusList is transparent: with an item under the cursor, for EVERY template, selection and forcePlus, the finder's
+   expansion is replacePlaceholder on current = the cursor item and selected = plus_items (the selection in selection
+   order; the cursor item when nothing is selected), and it is always valid.  In particular the number of selected
+   items (0, 1, many) and the position of the cursor relative to them make no difference. *)
+Theorem buildpluslist_transparent : forall p c sel tmpl temps,
+  terminal_expand p (Some c) sel tmpl temps =
+    (do x <- replace_placeholder (with_items p [c] (plus_items (Some c) sel)) tmpl temps; Ok (true, x)).
+Proof. exact buildpluslist_transparent_proof. Qed.
+Print Assumptions buildpluslist_transparent.
+
+(* hence the round trip holds in the finder, with {} standing for the cursor item and {+} for plus_items *)
+Theorem terminal_expansion_roundtrip : forall p c sel tmpl temps v out files, p_fish p = false ->
+  terminal_expand p (Some c) sel tmpl temps = Ok (v, (out, files)) ->
+  v = true /\
+  exists outs, replace_structured (with_items p [c] (plus_items (Some c) sel)) tmpl temps = Ok (outs, files) /\
+    out = concat (map render outs) /\
+    forall ws, template_words (map seg_of outs) = Some ws -> sh_words out = Some ws.
+Proof. exact terminal_expansion_roundtrip_proof. Qed.
+Print Assumptions terminal_expansion_roundtrip.
+
+(* {+} covers every selected item, in selection order, one word each (the cursor item when nothing is selected) *)
+Theorem plus_covers_selection : forall p c sel temps, p_fish p = false ->
+  exists out, terminal_expand p (Some c) sel t_plus temps = Ok (true, (out, [])) /\
+    sh_words out = Some (map snd (plus_items (Some c) sel)).
+Proof. exact plus_covers_selection_proof. Qed.
+Print Assumptions plus_covers_selection.
+
+(* {} is the cursor item whatever is selected *)
+Theorem braces_is_cursor_item : forall p c sel temps, p_fish p = false -> p_force_plus p = false ->
+  exists out, terminal_expand p (Some c) sel t_braces temps = Ok (true, (out, [])) /\
+    sh_words out = Some [snd c].
+Proof. exact braces_is_cursor_item_proof. Qed.
+Print Assumptions braces_is_cursor_item.
+
+(* ---- temp files of f-placeholders ---- *)
+
+(* the files a template writes are, in order, the files each of its placeholders writes when it is expanded on its own:
+   no placeholder's file depends on the other placeholders of the template (same range, other flags, or not) *)
+Theorem files_per_placeholder : forall p tmpl temps out files,
+  replace_placeholder p tmpl temps = Ok (out, files) ->
+  exists fss, map_res (own_files p) (scan tmpl O []) = Ok fss /\ files = concat fss.
+Proof. exact files_per_placeholder_proof. Qed.
+Print Assumptions files_per_placeholder.
+
+(* {+f}: the file holds the text of every selected item in selection order, each followed by the print separator *)
+Theorem plus_file_holds_selection : forall p name rest,
+  replace_placeholder p t_plus_file (name :: rest) =
+    Ok (name, [file_text (p_printsep p) (map snd (p_selected p))]).
+Proof. exact plus_file_holds_selection_proof. Qed.
+Print Assumptions plus_file_holds_selection.
+
+(* {f} {+f} in ONE template, in the running finder: two files, the cursor item in the first, the selection in the second *)
+Theorem terminal_file_and_plus_file : forall p c sel n1 n2 rest, p_force_plus p = false ->
+  terminal_expand p (Some c) sel t_file_plus_file (n1 :: n2 :: rest) =
+    Ok (true, (n1 ++ c_sp :: n2,
+        [file_text (p_printsep p) [snd c]; file_text (p_printsep p) (map snd (plus_items (Some c) sel))])).
+Proof. exact terminal_file_and_plus_file_proof. Qed.
+Print Assumptions terminal_file_and_plus_file.
+
 (* STRETCH, NOT PART OF THE CLAIM: the fish dialect of QuoteEntry round-trips through fish_words, a reading of the
    fish manual (single quotes: only \' and \\ are escapes) that could not be validated: fish is not installed. *)
 Theorem quote_roundtrip_fish : forall ws : list str,
@@ -126,3 +188,20 @@ Example c12_tmux_env_nonvacuous :
     Some [[102;122;102]; [45;45;113;61;105;116;39;115]; w_no_tmux; w_no_height] /\
   valid_identifier [80;65;84;72] = true.
 Proof. vm_compute. split; reflexivity. Qed.
+
+(* the finder: ONE selected item (index 1) and the cursor on another one (index 7): {+} is the selected item, {} the
+   cursor item; nothing selected: {+} is the cursor item *)
+Example c12_terminal_nonvacuous :
+  terminal_expand ex_params (Some (7, [99;117;114])) [(1, [115;39;101;108])] [123;43;125;32;123;125] [] =
+    Ok (true, ([39;115;39;92;39;39;101;108;39;32;39;99;117;114;39], [])) /\
+  terminal_expand ex_params (Some (7, [99;117;114])) [] [123;43;125] [] = Ok (true, ([39;99;117;114;39], [])) /\
+  terminal_expand ex_params None [] [123;43;125] [] = Ok (false, ([], [])).
+Proof. vm_compute. repeat split. Qed.
+
+Example c12_files_nonvacuous :
+  replace_placeholder ex_params [123;102;125;32;123;43;110;102;125;32;123;43;102;125] [[65];[66];[67]] =
+    Ok ([65;32;66;32;67],
+        [[105;116;39;115;32;36;40;105;100;41;32;96;120;96;59;114;109;10];
+         [49;10;50;10;51;10];
+         [97;32;98;10;99;39;100;10;10;10]]).
+Proof. vm_compute. reflexivity. Qed.
